@@ -19,9 +19,11 @@ def WfSource (src : KVs) : Prop :=
 /-- the including document's resource sections are absent, null or mappings -/
 def WfTarget (tgt : KVs) : Prop := ∀ k, k ∈ resourceKinds → ∃ to, targetSection k tgt = some to
 
-/-- section `k` defines some name on both sides with different values -/
-def ConflictAt (src tgt : KVs) (k : String) : Prop :=
-  ∃ f to n a c, lookup k src = some (.map f) ∧ targetSection k tgt = some to ∧ (n, a) ∈ f ∧ lookup n to = some c ∧ a ≠ c
+/-- section `k` defines some name on both sides with values that are not the same (`same` = `reflect.DeepEqual`, or
+`sameResource`: equal after resolving relative paths against the including project's directory) -/
+def ConflictAt (same : String → Val → Val → Bool) (src tgt : KVs) (k : String) : Prop :=
+  ∃ f to n a c, lookup k src = some (.map f) ∧ targetSection k tgt = some to ∧ (n, a) ∈ f ∧ lookup n to = some c ∧
+    same k a c = false
 
 /-- the definition of resource `n` of kind `k` in a model, if any -/
 def resourceOf (m : KVs) (k n : String) : Option Val :=
@@ -51,8 +53,8 @@ open CV CV.Val
 def subLoads (W : World) (wd L : String) (env : Env) (chain : List String) : List IncCfg → Out (List KVs)
   | [] => .ok []
   | r :: rs =>
-    (plan W wd L chain r).bind fun pl =>
-    (includeEnv W wd pl.projDir env r.envFile).bind fun env' =>
+    (plan W (baseDir wd L) L chain r).bind fun pl =>
+    (includeEnv W (baseDir wd L) pl.projDir env r.envFile).bind fun env' =>
     (W.loadModel pl.relwd pl.projDir pl.paths env' chain).bind fun im =>
     (subLoads W wd L env chain rs).bind fun ims => .ok (im :: ims)
 
